@@ -105,6 +105,11 @@ def random_subsegment(segment: Segment,
             yield Segment(t, t + duration)
 
     else:
+        if min_duration > segment.duration:
+            msg = (f'`min_duration` (= {min_duration:g}) should be smaller '
+                   f'than `segment` duration (= {segment.duration:g}).')
+            raise ValueError(msg)
+
         # make sure max duration is smaller than actual segment duration
         max_duration = min(segment.duration, duration)
 
